@@ -361,23 +361,29 @@ class Crazyflie():
                                   lambda: self._no_answer_do_retry(pk,
                                                                    pattern,
                                                                    timeout))
+                new_timer.request = pk
                 self._answer_patterns[pattern] = new_timer
                 new_timer.start()
             elif resend:
                 # Check if we have gotten an answer, if not try again
                 pattern = expected_reply
-                if pattern in self._answer_patterns:
+                pending = self._answer_patterns.get(pattern)
+                if pending is not None and pending.request is pk:
                     logger.debug('We want to resend and the pattern is there')
                     if self._answer_patterns[pattern]:
                         new_timer = Timer(timeout,
                                           lambda:
                                           self._no_answer_do_retry(
                                               pk, pattern, timeout))
+                        new_timer.request = pk
                         self._answer_patterns[pattern] = new_timer
                         new_timer.start()
                 else:
+                    # Answered (or the link was closed) in the meantime
                     logger.debug('Resend requested, but no pattern found: %s',
                                  self._answer_patterns)
+                    self._send_lock.release()
+                    return
             self.link.send_packet(pk)
             self.packet_sent.call(pk)
         self._send_lock.release()
